@@ -173,7 +173,12 @@ func builtinMathRandom(call FunctionCall) Value {
 
 func builtinMathRound(call FunctionCall) Value {
 	number := call.Argument(0).float64()
-	value := math.Floor(number + 0.5)
+	// floor(number + 0.5) with the addition done exactly: number - floor(number) is
+	// always representable, number + 0.5 is not (0.49999999999999994, odd integers >= 2^52).
+	value := math.Floor(number)
+	if number-value >= 0.5 {
+		value++
+	}
 	if value == 0 {
 		value = math.Copysign(0, number)
 	}
